@@ -15,7 +15,7 @@ import subprocess
 
 import common as C
 
-POOLS = {"quick": ["s"], "thorough": ["s", "m", "q"]}
+POOLS = {"quick": ["s"], "thorough": ["s", "n", "q"]}
 KEY = {"C12": "c12", "C13": "c13", "C14": "c14"}
 
 
